@@ -484,8 +484,16 @@ impl<'a, 't, 'g> VGen<'a, 't, 'g> {
                         elements.push(StructureElementDeclaration { name: id(&fname), init });
                     }
                     if elements.len() >= 2 && self.site(FaultKind::DupStructElem) {
+                        // (the second occurrence as written, in upper or in lower case - the same name
+                        // all the same; it is the last element, so others stand between the two)
                         let last = elements.len() - 1;
-                        elements[last].name = elements[0].name.clone();
+                        let first = elements[0].name.original().clone();
+                        let again = match self.t_free_pick(&[0usize, 1, 2]) {
+                            1 if self.g.want("DUPLICATE_ELEMENT_IN_ANOTHER_LETTER_CASE") => first.to_ascii_uppercase(),
+                            2 if self.g.want("DUPLICATE_ELEMENT_IN_ANOTHER_LETTER_CASE") => first.to_ascii_lowercase(),
+                            _ => first,
+                        };
+                        elements[last].name = id(&again);
                         self.set_marker(&name);
                     }
                     self.structs.push(StructInfo { name: name.clone(), fields });
